@@ -167,7 +167,8 @@ def stub_fidelity(tier, seed):
         plan = syn.make_plan(core.stream(core.run_seed(seed, syn.ENGINE, i), "workload"))
         faulty = any(t[2] != "ok" for c in plan["calls"] for t in c["tasks"])
         ntasks = sum(len(c["tasks"]) for c in plan["calls"])
-        if ntasks <= 30 and (faulty or len(idx) % 3 == 0):
+        # (the real-multiprocessing runner drives one map; two-map plans are left out)
+        if ntasks <= 30 and not plan.get("second") and (faulty or len(idx) % 3 == 0):
             idx.append(i)
         i += 1
     res = batch.map_chunks(_fidelity_job, [(seed, i) for i in idx], nproc=4, limit_s=300)
